@@ -490,24 +490,7 @@ func c08(c *Ctx) {
 	ruleRecycledPoints(c, ax, "R9")
 
 	c.Rule("R7", "E3 + E2 (shared)", "callbacks run before compute (= C02.R6); observable kinds get precomputed aggregators (= C02.R9)", 20)
-	if fn := mx.Func("(*pipeline).produce"); fn != nil {
-		g := mx.FG(fn)
-		fCB := lookupField(mx.Pkg, "pipeline", "callbacks")
-		fMC := lookupField(mx.Pkg, "pipeline", "multiCallbacks")
-		fComp := lookupField(mx.Pkg, "instrumentSync", "compAgg")
-		cb := g.Match(func(n ast.Node) bool { e, ok := n.(ast.Expr); return ok && isField(minfo, e, fCB) })
-		mc := g.Match(func(n ast.Node) bool { e, ok := n.(ast.Expr); return ok && isField(minfo, e, fMC) })
-		comp := g.Match(func(n ast.Node) bool { call, ok := n.(*ast.CallExpr); return ok && isField(minfo, call.Fun, fComp) })
-		good := len(comp) == 1 && len(cb) > 0 && len(mc) > 0
-		if good {
-			d1, _ := g.DominatedByNodes(comp[0], toSet(cb))
-			d2, _ := g.DominatedByNodes(comp[0], toSet(mc))
-			good = d1 && d2
-		}
-		c.Check(good, "R7", "sdk/metric|(*pipeline).produce|callbacks precede compAgg", at(mx.M, fn.Pos()), "observed before collected", "observations are collected a cycle late")
-	} else {
-		c.Missing("R7", "sdk/metric.(*pipeline).produce")
-	}
+	rulePipelineProduce(c, mx, "R7")
 	ruleAggregateFunc(c, mx, "R7")
 }
 
